@@ -88,8 +88,14 @@ class Block1Spool:
         if req.opt.block1.more:
             raise ContinueException(req.opt.block1)
         else:
-            return self._assemblies[block_key]
+            assembled = self._assemblies[block_key]
             # which happens to carry the last block's block1 option
+
+            # The transfer is over, and the message is the handler's now: a
+            # later block must neither find anything to continue nor be
+            # appended to what the handler is working on
+            self._assemblies.discard(block_key)
+            return assembled
 
 
 class Block2Cache:
